@@ -370,8 +370,27 @@ def cases(prop, tier, seed):
     ifaces = [_gen_iface(rng, j) for j in range(k)]
     if rng.random() < 0.5:
       ifaces[1]['cname'] = ifaces[0]['cname']     # same class name, same module, different class object
-    out.append({'ifaces': ifaces, 'uris': [_gen_uri(rng) for _ in range(rng.randint(8, 12))],
-                'via_builder': rng.random() < 0.5})
+    uris = [_gen_uri(rng) for _ in range(rng.randint(8, 12))]
+    out.append({'ifaces': ifaces, 'uris': uris, 'via_builder': rng.random() < 0.5})
+    # relatives of a zk:// URI of the case, parsed later in the same process: the same ensemble and path with another
+    # (or no, or a differently spelled) endpoint name; the same ensemble with a path that differs only in case
+    zks = [u for u in uris if u.startswith('zk://')]
+    rr = random.Random(rng.randint(0, 2 ** 30))
+    for _ in range(rr.choice([0, 1, 1, 2])):
+      if not zks:
+        break
+      u = rr.choice(zks)
+      body, _sep, frag = u.partition('#')
+      r = rr.random()
+      if r < 0.6:
+        other = [e for e in _EPS if e != frag] + ([frag.swapcase()] if frag and frag.swapcase() != frag else [])
+        f2 = rr.choice(other)
+        rel = body + ('#' + f2 if f2 else '')
+      else:
+        head, slash, path = body[5:].partition('/')
+        rel = 'zk://' + head + slash + path.swapcase() + ('#' + frag if frag else '')
+      if rel != u:
+        uris.insert(rr.randint(uris.index(u) + 1, len(uris)), rel)
   rng3 = random.Random(15485863 * int(seed) + 77)
   for c in out:
     c['requery_seed'] = rng3.randint(0, 2 ** 30)
